@@ -58,10 +58,11 @@ class LeanStatus:
         self.examples = 0
         self.bad_axioms: dict[str, list[str]] = {}
         self.audit_ok = False
+        self.tie_msg = ""   # EngineTie (M6): non-empty = Properties/EngineTie.lean is broken for this (engine) property
 
     @property
     def proof_ok(self) -> bool:
-        return self.extract_ok and self.build_ok and self.audit_ok and not self.forbidden and not self.bad_axioms
+        return self.extract_ok and self.build_ok and self.audit_ok and not self.forbidden and not self.bad_axioms and not self.tie_msg
 
     @property
     def obligations(self) -> int:
@@ -81,6 +82,8 @@ class LeanStatus:
         if not self.build_ok:
             errs = [l for l in self.build_log.splitlines() if "error" in l][:6]
             return "lake build failed: " + " | ".join(errs)
+        if self.tie_msg:
+            return self.tie_msg
         if self.forbidden:
             return f"forbidden tokens: {self.forbidden[:5]}"
         if self.bad_axioms:
@@ -112,6 +115,9 @@ def _lean_pipeline(prop: str, clean: bool = False) -> LeanStatus:
     try:
         status = json.loads((LEAN / ".lake" / "extract_status.json").read_text())
         for name, props in status.get("affects", {}).items():
+            if name == "extract_engine" and prop in props:   # EngineTie (M6): Engine.lean does not consume this section, so the
+                st.tie_msg = f"translator failed: section {name}: {status['failed'][name]}"   # model stays usable for the search
+                continue
             if prop in props:
                 st.extract_ok = False
                 st.extract_msg = f"section {name}: {status['failed'][name]}"
@@ -161,11 +167,64 @@ def _lean_pipeline(prop: str, clean: bool = False) -> LeanStatus:
         if not set(axs) <= ACCEPTED_AXIOMS:
             st.bad_axioms[name] = axs
     st.audit_ok = len(st.theorems) > 0
+    _engine_tie(prop, st)   # EngineTie (M6): engine properties additionally need Properties/EngineTie.lean
     return st
+
+
+# >>> EngineTie (M6) ---------------------------------------------------------------------------------------------------
+ENGINE_TIE_PROPS = {"C01", "C02", "C03", "C04", "C05", "C06", "C08", "C09", "C10", "C17"}
+
+
+def _engine_tie(prop: str, st: LeanStatus) -> None:
+    """The theorems of the engine properties are about the hand-written model `Engine.lean`; `Properties/EngineTie.lean` proves
+    that model equal to the engine computed from the facts `extract_engine.py` reads from the source. For the engine properties
+    it is built (in a lake call of its own: a failure must not take the driver away from the failing-input search) and audited
+    (in a `lean` call of its own: proof modules of different builders may not be importable together); its theorems and
+    examples count as obligations of the property. A failure is PROOF-BROKEN for these properties only."""
+    tfile = LEAN / "PytaskProofs" / "Properties" / "EngineTie.lean"
+    if prop not in ENGINE_TIE_PROPS or not tfile.exists():
+        return
+    body = strip_comments(tfile.read_text())
+    names = ["Pytask." + n for n in re.findall(r"^\s*theorem\s+(\S+)", body, flags=re.M)]
+    mod = "PytaskProofs.Properties.EngineTie"
+    r = subprocess.run(["lake", "build", mod], capture_output=True, text=True, cwd=LEAN)
+    out = r.stdout + r.stderr
+    if r.returncode == 0:
+        af = LEAN / ".lake" / "audit" / f"Audit_EngineTie_{prop}_{os.getpid()}.lean"
+        af.write_text(f"import PytaskProofs.AuditTool\nimport {mod}\n#audit_module {mod}\n")
+        try:
+            r = subprocess.run(["lake", "env", "lean", str(af)], capture_output=True, text=True, cwd=LEAN)
+        finally:
+            af.unlink(missing_ok=True)
+        out = r.stdout + r.stderr
+    seen = {}
+    if r.returncode == 0:
+        for line in r.stdout.splitlines():
+            m = re.match(r".*AUDIT (\S+) \[(.*)\]\s*$", line)
+            if m and not re.search(r"\.(eq_\d+|eq_def|match_\d+|proof_\d+)$", m.group(1)):
+                seen[m.group(1)] = [a.strip() for a in m.group(2).split(",") if a.strip()]
+    for n in names:
+        axs = seen.get(n, ["<not proved>"])
+        st.theorems[n] = axs
+        if not set(axs) <= ACCEPTED_AXIOMS:
+            st.bad_axioms[n] = axs
+    if r.returncode == 0:
+        st.examples += len(re.findall(r"^\s*example\b", body, flags=re.M))
+    if st.tie_msg:   # the translator section failed: the (old) facts the theorems were checked against are not the source's
+        for n in names:
+            st.theorems[n] = st.bad_axioms[n] = ["<facts not extracted>"]
+    elif r.returncode != 0 or any(n not in seen for n in names):
+        errs = [l.strip() for l in out.splitlines() if "error" in l][:4]
+        st.tie_msg = "EngineTie broken (the engine model no longer equals the engine extracted from the source): " + " | ".join(errs)
+        st.build_log += out[-3000:]
+# <<< EngineTie (M6) ---------------------------------------------------------------------------------------------------
 
 
 def leanchecker(mods: list[str]) -> tuple[bool, str]:
     r = subprocess.run(["lake", "env", "leanchecker", *mods], capture_output=True, text=True, cwd=LEAN)
+    if r.returncode == 0 and any(m.rsplit(".", 1)[-1] in ENGINE_TIE_PROPS for m in mods) \
+            and (LEAN / "PytaskProofs" / "Properties" / "EngineTie.lean").exists():   # EngineTie (M6), in a call of its own
+        r = subprocess.run(["lake", "env", "leanchecker", "PytaskProofs.Properties.EngineTie"], capture_output=True, text=True, cwd=LEAN)
     return r.returncode == 0, (r.stdout + r.stderr)[-2000:]
 
 
